@@ -374,7 +374,9 @@ func tryReplay(w *World, prop, key string, r *Result) *ReplayOutcome {
 	var buf bytes.Buffer
 	cmd.Stdout, cmd.Stderr = &buf, &buf
 	t0 := time.Now()
+	before := repoUntracked()
 	cmd.Run()
+	removeNewUntracked(before)
 	out.Attempted = true
 	out.TestFile = src.String()
 	res := buf.String()
@@ -499,8 +501,37 @@ func runReplay(file string) int {
 	cmd.Dir = repoRoot
 	cmd.Env = append(os.Environ(), "GOFLAGS=-mod=mod", "GOPROXY=off")
 	cmd.Stdout, cmd.Stderr = os.Stdout, os.Stderr
+	before := repoUntracked()
 	cmd.Run()
+	removeNewUntracked(before)
 	return 0
+}
+
+// Test binaries of some packages leave log files and data directories next to their sources. A replay must not
+// leave anything in /repo: remember the untracked paths before the run and remove the ones that appeared.
+func repoUntracked() map[string]bool {
+	out, err := exec.Command("git", "-C", repoRoot, "ls-files", "--others", "--exclude-standard", "--directory").Output()
+	m := map[string]bool{}
+	if err != nil {
+		return nil
+	}
+	for _, l := range strings.Split(string(out), "\n") {
+		if l != "" {
+			m[l] = true
+		}
+	}
+	return m
+}
+
+func removeNewUntracked(before map[string]bool) {
+	if before == nil {
+		return
+	}
+	for p := range repoUntracked() {
+		if !before[p] && !strings.Contains(p, "..") {
+			os.RemoveAll(filepath.Join(repoRoot, p))
+		}
+	}
 }
 
 func runSelftest(prop string) int {
